@@ -108,8 +108,9 @@ def text(classes=None, weights_plain=3):
 
 
 # Names: never blank-only and without surrounding blanks (sibling uniqueness is by
-# construction, see below).  '/' and ':' are kept out for the checks that build paths.
-NAME_ALPHABET = string.ascii_letters + string.digits + "_-. äΩ,\"'[]<&"
+# construction, see below).  '/', ':' and '#' mean something in paths and links; only the checks that
+# build paths ask for path-safe names, everywhere else such characters are part of a name like any other.
+NAME_ALPHABET = string.ascii_letters + string.digits + "_-. äΩ,\"'[]<&" + "/:#%\\"
 
 
 def names(pathsafe=False):
